@@ -353,6 +353,10 @@ impl<H: HashAlgorithm> RangeUpdater<H> {
             return next_index;
         }
 
+        if output.witnessed_paths.is_some() {
+            output.witnessed_start.get_or_insert(start_index);
+        }
+
         let is_non_exclusive = seek_result
             .page_id
             .as_ref()
